@@ -27,7 +27,8 @@ def load_cases(out_dir: Path, seed: int):
 class Gamma:
     def __init__(self, rng, case):
         self.atoms = rng.choice(POOLS)
-        self.carrier = rng.choice(["list", "tuple", "dict", "call", "call", "nested"])
+        # "subdict": a dict snapshot whose entries are compared one by one through snapshot[key] (sub-snapshots)
+        self.carrier = rng.choice(["list", "tuple", "dict", "call", "call", "nested", "subdict", "subdict"])
         self.class_kind = rng.choice(["dataclass", "attrs", "namedtuple"])
         self.placement = rng.choice(["func", "lambda"])
         self.reflect = rng.random() < 0.5
@@ -50,7 +51,7 @@ class Gamma:
             return "[" + ", ".join(elems) + "]"
         if self.carrier == "tuple":
             return "(" + ", ".join(elems) + ("," if len(elems) == 1 else "") + ")"
-        if self.carrier == "dict":
+        if self.carrier in ("dict", "subdict"):
             return "{" + ", ".join("'k%d': %s" % (j, e) for j, e in enumerate(elems)) + "}"
         if self.carrier == "nested":
             return "{'outer': [" + ", ".join(elems) + "], 'z': 0}"
@@ -88,6 +89,11 @@ def render(case, g: Gamma) -> str:
         cmp_elems = [("[%r]" % (g.atoms[ev["cmp"][j]],)) if kinds[j] == "ref" else repr(g.atoms[ev["cmp"][j]]) for j in range(g.n)]
         value = g.container(cmp_elems)
         e = "_site() == %s" % value if g.reflect else "%s == _site()" % value
+        if g.carrier == "subdict":
+            # every entry through its own sub-snapshot (one evaluation of the call, then the keys one by one)
+            out.append("    with _r.at(%d, 1):\n        _s = _site()\n        _r.val(all([%s]))\n\n\n"
+                       % (k, ", ".join("_s['k%d'] == %s" % (j, c) for j, c in enumerate(cmp_elems))))
+            continue
         out.append("    with _r.at(%d, 1):\n        _r.val(%s)\n\n\n" % (k, e))
     return "".join(out)
 
@@ -114,7 +120,10 @@ def replay_one(case, seed):
     if got != want:
         for j, (a, b) in enumerate(zip(want, got)):
             if a != b:
-                if b == "UsageError" or a == "UsageError":
+                if b not in ("T", "F", "UsageError"):
+                    # the comparison raised something else (the re-evaluation corrupted the stored value)
+                    mm("exception", ["C14", "C06", "C18"], {"evaluation": j + 1, "exp": a, "got": b})
+                elif b == "UsageError" or a == "UsageError":
                     # a usage error that the model does not predict (a dynamic part changed) / a changed
                     # hand-written part that is accepted silently
                     mm("usage-error", ["C14"], {"evaluation": j + 1, "exp": a, "got": b})
